@@ -89,6 +89,22 @@ def make_chain(read_code, ids, start, check_content=True, lens=None):
                         exp_body = exp_body + bytes([o, len(v)]) + v
                     if not same(body, exp_body, "response bytes vs. the objects the response claims to carry"):
                         return False
+                    # the client's side of the chain: its decoder must turn those bytes back into this page
+                    from pymodbus.factory import ClientDecoder
+                    try:
+                        cd = ClientDecoder().decode(bytes([0x2B]) + body)
+                    except Exception as e:
+                        explain("client decoder raised %s on a %d-byte response PDU", type(e).__name__, 1 + len(body))
+                        return False
+                    if cd is None or type(cd).__name__ != "ReadDeviceInformationResponse":
+                        explain("client decoder returned %r for a %d-byte response PDU", cd, 1 + len(body))
+                        return False
+                    if cd.more_follows != resp.more_follows or cd.next_object_id != resp.next_object_id or cd.number_of_objects != k:
+                        explain("client-side header fields differ")
+                        return False
+                    if sorted(cd.information.items()) != sorted(page):
+                        explain("client-side objects differ from the page sent")
+                        return False
                 seen = seen + page
                 if resp.more_follows == 0x00:
                     done = True
